@@ -158,6 +158,33 @@ def r08_1(chk, sd):
             chk.ob("R08.1", SD, q, "the invariant of degree l is computed from the coefficients of degree l only", False, node=ev.returns[-1].node,
                    fingerprint="degree-local", expected="a sum over the block [l^2, (l+1)^2) for each l",
                    found=f"differences of a running total over the whole vector: {str(P.atom(cums[0]))[:120]}")
+    if not stores:
+        # comprehension form: [f(l) for l in range(size)] (possibly over a generator of blocks): one per-degree value per position
+        rv = ev.returns[-1].value
+        for ca in find_atoms(rv, lambda a: a[0] == "comp" and a[1] == "ListComp" and len(a) == 4 and len(a[3]) == 1 and not a[3][0][2]):
+            kind, src, _ = ca[3][0]
+            dom = None
+            if kind == "range":
+                dom = src
+            elif kind == "iter" and src.as_atom() and src.as_atom()[0] == "comp" and len(src.as_atom()[3]) == 1 and src.as_atom()[3][0][0] == "range" \
+                    and not src.as_atom()[3][0][2]:
+                dom = src.as_atom()[3][0][1]
+            da = dom.as_atom() if dom is not None else None
+            if not (da and da[0] == "call" and len(da[2]) in (1, 2)):
+                continue
+            lvs = [x for x in find_atoms(ca[2], lambda x: x[0] == "lv" and isinstance(x[2], int) and x[2] >= 1000)]
+            if not lvs or not _accesses(ca[2], coef):
+                continue
+
+            class _L:
+                pass
+            lp = _L()
+            lp.kind, lp.index, lp.lo, lp.hi = "range", P.atom(lvs[0]), (da[2][0] if len(da[2]) == 2 else P.const(0)), da[2][-1]
+            st_ = _L()
+            st_.kind, st_.loops, st_.value, st_.node = "store", (lp,), ca[2], ev.returns[-1].node
+            st_.target = P.atom(("sub", P.name("<result>"), (lp.index,)))      # element l of the list is the value for degree l
+            stores.append(st_)
+            break
     chk.need(stores, f"{q}: per-degree store not found")
     n = 0
     for e in stores:
@@ -218,7 +245,7 @@ def r08_1(chk, sd):
                found=f"covered up to {cur}; unused pieces {[(str(a), str(b)) for a, b in left]}")
     ret = ev.returns[-1].value.as_atom()
     chk.ob("R08.1", SD, q, "the result is the square root of the per-degree sums",
-           bool(ret and ret[0] == "call" and call_name(ret) == "sqrt"), found=str(ev.returns[-1].value))
+           bool(ret and ret[0] == "call" and call_name(ret) == "sqrt"), found=str(ev.returns[-1].value)[:200])
 
 
 def r08_2(chk, sht):
@@ -442,11 +469,12 @@ def r08_3(chk, sd, inv):
     cap = None
     capguard = None
     for e in ev.events:
-        if e.kind == "assign" and e.value is not None:
+        if e.kind in ("assign", "call") and e.value is not None:       # a temporary, or the slice written straight into the call
             for pn in ev.param_names:
                 for s in slices_of(e.value, pn):
-                    cap = s[1].const_value()
-                    capguard = e.guards
+                    if cap is None:
+                        cap = s[1].const_value()
+                        capguard = e.guards
     root = math.isqrt(int(cap)) if cap is not None else 0
     chk.ob("R08.3", SD, q, "the coefficient vector is capped at a block boundary (a perfect square)",
            cap is not None and root * root == cap, expected="(d+1)^2", found=str(cap))
